@@ -172,7 +172,13 @@ func GenConc(r *core.Rng, store string) *ConcProgram {
 		nm := name()
 		c := core.Pick(r, []Conds{{"cur"}, {"zero"}, {"cur"}, {"", "", "cur"}})
 		for i := 0; i < n; i++ {
-			switch r.Weighted([]int{35, 30, 15, 20}) {
+			switch r.Weighted([]int{30, 25, 12, 18, 15}) {
+			case 4: // an unconditional writer in the middle of the contest: it must still be ordered with the others
+				src := concNames[1]
+				if nm == src {
+					src = concNames[0]
+				}
+				p.Ops = append(p.Ops, &Op{Kind: "copy", B: concBucket, N: src, B2: concBucket, N2: nm})
 			case 0:
 				p.Ops = append(p.Ops, &Op{Kind: "upload", B: concBucket, N: nm, Content: append(content(), byte('A'+i)), Meta: meta(), Declared: "none", Proto: "multipart", Conds: c})
 			case 1:
